@@ -41,7 +41,7 @@ Section Witness.
     mk_env (fun n => N.of_nat (length n)) 1500%Z true [anchor]
            (fun n _ => if name_eqb n g then LMsg ds_msg else LErr 1)
            (fun n => if name_eqb n g then LMsg key_msg else LErr 2)
-           (fun _ _ _ => LErr 3) (fun _ _ _ _ => OErr EDSRecords) (fun _ _ _ => WErr EDSRecords).
+           (fun _ _ _ => LErr 3) (fun _ _ _ _ => OErr EDSRecords) (fun _ _ _ _ => WErr EDSRecords).
 End Witness.
 
 Lemma answer_ad_sound_refuted_lemma : ~ answer_ad_sound_statement.
